@@ -25,12 +25,7 @@ impl BigUint {
 //@ end
 //@ stub u_core/is_zero
 //@ stub u_core/clone
-    //@ assume BigUint::gcd : Stein's binary gcd over shifts and subtraction (src/biguint.rs); unit pending -- contract: the greatest common divisor
-    #[verifier::external_body]
-    fn gcd(&self, other: &Self) -> (r: Self)
-        requires self.wf(), other.wf()
-        ensures r.wf(), is_gcd(self.v(), other.v(), r.v())
-    { unimplemented!() }
+//@ stub u_gcd/gcd
 //@ stub u_divapi/mod_floor
 }
 
